@@ -3,6 +3,17 @@ import json, os
 VERIF = os.path.dirname(os.path.dirname(os.path.abspath(__file__)))
 PROOF = "proof"
 CHECKS = {
+ "C07": dict(
+    text="Lean 4: Dual R (value, tangent) is a commutative ring, so C02.expr_dense (any expression tree), C03.getitem_tensor and "
+         "C06.dot_eq hold verbatim over dual numbers — the compressed and the dense computation agree in the tangent for every "
+         "assignment of tangents to the core/factor entries, i.e. in every gradient; `.data *=` is modelled as dataScale and proved NOT "
+         "to be multiplication by a constant (the repaired defect). Tie to /repo: the same programs run through the model over dual "
+         "rationals and through autograd; directional derivatives of the result cores agree; plus autograd(compressed) vs "
+         "autograd(dense) for every parameter and every scalar head (sum/mean/dot/norm/var/dist/README loss), and no silent detachment.",
+    note="Trusted: Lean kernel + standard axioms; PyTorch's autograd engine (modelled as dual arithmetic, validated per run); harness "
+         "glue; sampling. sqrt heads are covered by smooth_head (equal duals in, equal duals out); mean/var are covered through sum/dot.",
+    tech="Lean 4 proof (instantiation of the ring-generic theorems at the dual numbers) + differential correspondence against autograd",
+    ref="§3 C07"),
  "C09": dict(
     text="Lean 4 theorems: numerator and denominator of sobol() are the mask-weighted and the total sum of a(j)·am(j) over the extended "
          "index box (C06.dot_eq + C02.mul_dense), additivity over masks, the all-ones mask gives index 1, the ANOVA operator only sees "
